@@ -93,8 +93,11 @@ def checkkind_rules(fb, ctx):
         expected_ids.append(distinct[0] if len(distinct) == 1 else None)
         # query scopes default to the enclosing block's trusted origins
         fs = [c for c in find_all(loop, lambda z: z.get("k") == "call" and z.get("f", {}).get("k") == "path" and (z["f"]["res"].get("path") or "").endswith("TrustedOrigins::from_scopes"))]
-        q = [c for c in fs if "scopes" in estr(c["args"][0]) and "query" in estr(c["args"][0])]
-        ok = bool(q) and all("trusted_origins" in estr(c["args"][1]) and "default" not in estr(c["args"][1]) for c in q)
+        is_fs = lambda z: isinstance(z, dict) and z.get("k") == "call" and (z.get("f", {}).get("res", {}).get("path") or "").endswith("TrustedOrigins::from_scopes")
+        # query-level calls: their scopes come from a datalog::Rule; block-level trust: any variable initialised by from_scopes(..)
+        q = [c for c in fs if find_all(c["args"][0], lambda z: z.get("k") == "field" and z.get("name") == "scopes" and re.search(r"datalog::Rule$", z.get("ety") or ""))]
+        bt_ids = hirq.let_ids(h["body"], lambda z: is_fs(strip(z)))
+        ok = bool(q) and all(hirq.is_lid(strip(c["args"][1]), bt_ids) for c in q)
         ctx.check(ok, "SCOPECHAIN", f"check loop #{n}: a query without scope inherits its block's trusted origins", f"SCOPECHAIN|loop{n}", f"query-level from_scopes defaults: {[estr(c['args'][1]) for c in q]}", where)
         # success / failure bookkeeping
         pushes = [c for c in mcalls(loop, r"Vec::<T, A>::push$") if find_all(c, lambda z: (hirq.ctor_name(z) or "").startswith("biscuit_auth::error::FailedCheck::"))]
@@ -102,9 +105,10 @@ def checkkind_rules(fb, ctx):
         for i in find_all(loop, lambda z: z.get("k") == "if"):
             c = strip(i["cond"])
             if c.get("k") == "unary" and c.get("op") == "Not" and is_local(strip(c["a"])) and any(find_all(i["then"], lambda z: z is p) for p in pushes):
-                flag = strip(c["a"])["res"]["name"]
-                sets = [a for a in find_all(loop, lambda z: z.get("k") == "assign" and is_local(strip(z["lhs"]), flag) and hirq.literal(z["rhs"]) is True)]
-                brk = [i2 for i2 in find_all(loop, lambda z: z.get("k") == "if") if is_local(strip(i2["cond"]), "res") and find_all(i2["then"], lambda z: z.get("k") == "break") and any(find_all(i2["then"], lambda z: z is s) for s in sets)]
+                flag = {strip(c["a"])["res"]["id"]}
+                res_ids = hirq.let_ids(loop, lambda z: bool(find_all(z, lambda y: y is m)))     # `let res = match check.kind {..}`
+                sets = [a for a in find_all(loop, lambda z: z.get("k") == "assign" and hirq.is_lid(strip(z["lhs"]), flag) and hirq.literal(z["rhs"]) is True)]
+                brk = [i2 for i2 in find_all(loop, lambda z: z.get("k") == "if") if hirq.is_lid(strip(i2["cond"]), res_ids) and find_all(i2["then"], lambda z: z.get("k") == "break") and any(find_all(i2["then"], lambda z: z is s) for s in sets)]
                 guard_ok = bool(sets) and bool(brk)
         ctx.check(len(pushes) == 1 and guard_ok, "FAILEDCHECK", f"check loop #{n}: a check fails iff none of its queries succeeded", f"FAILEDCHECK|loop{n}", "expected `if res { successful = true; break }` per query and `if !successful { errors.push(FailedCheck..) }` per check", where)
     want_ids = ["usize::MAX", "0", None]
@@ -193,6 +197,28 @@ def decision_rules(fb, ctx):
     ctx.check(len(pq) == 1 and estr(pq[0]["args"][1]) in ("usize::MAX", "MAX"), "BLOCKID", "policies are evaluated as the authorizer (usize::MAX)", "BLOCKID|policies", f"policy query origin is {estr(pq[0]['args'][1]) if pq else None}", f"{b['file']}:{pl['ln']}")
 
 
+def scope_arg_rules(fb, ctx):
+    """SCOPEARG: every evaluation of a query (World::query_match / query_match_all / query_rule) in the authorizer receives, as its
+    trusted-origins argument, the variable that was computed from *that query's own scopes* by TrustedOrigins::from_scopes - not the
+    enclosing block's trust, not another query's. (The argument is second to last in all three signatures.)"""
+    is_fs = lambda z: isinstance(z, dict) and z.get("k") == "call" and (z.get("f", {}).get("res", {}).get("path") or "").endswith("TrustedOrigins::from_scopes")
+    from_rule_scopes = lambda init: any(find_all(c["args"][0], lambda z: z.get("k") == "field" and z.get("name") == "scopes" and re.search(r"datalog::Rule$", z.get("ety") or "")) for c in find_all(init, is_fs))
+    total = 0
+    for fn in ("authorize_inner", "query_inner", "query_all_inner"):
+        b = fb.body(f"{A}::{fn}")
+        h = fb.hir_of(b)
+        lets = [l for l in find_all(h["body"], lambda z: z.get("k") == "let" and isinstance(z.get("pat"), dict) and z["pat"].get("k") == "bind" and z.get("init") is not None and from_rule_scopes(z["init"]))]
+        calls = mcalls(h["body"], r"datalog::World::query_(match|match_all|rule)$")
+        for n, c in enumerate(calls):
+            total += 1
+            arg = strip(c["args"][-2]) if len(c["args"]) >= 2 else None
+            # the innermost enclosing definition: the last such `let` that textually precedes the call
+            cands = [l for l in lets if l["ln"] <= c["ln"]]
+            own = {cands[-1]["pat"]["id"]} if cands else set()
+            ctx.check(hirq.is_lid(arg, own), "SCOPEARG", f"{fn}: evaluation #{n} ({(c.get('def') or {}).get('path', '').split('::')[-1]}) uses the trust computed from its own query's scopes", f"SCOPEARG|{fn}|{n}", f"the trusted-origins argument is `{estr(arg)}`, not the variable initialised by from_scopes(<this query>.scopes, ..): the query's `trusting` annotation is ignored or another scope is applied", f"{b['file']}:{c['ln']}")
+    ctx.floor("query evaluations in the authorizer", total, 11)
+
+
 def used_rules(fb, ctx):
     b = fb.body(A + "::authorize_inner")
     cs = mirq.calls_matching(fb, b, r"datalog::World::query_match(_all)?$")
@@ -214,7 +240,9 @@ def query_scope_rules(fb, ctx):
     ctx.check(ok, "QUERYSCOPE", "query_all(): no scope -> every block of the token, else the rule's scopes", "QUERYSCOPE|query_all_inner", "`if rule.scopes.is_empty() { self.token_origins.clone() } else { from_scopes(..) }` not found", f"{qa['file']}:{qa['line']}")
     bi = fb.body("biscuit_auth::token::builder::authorizer::AuthorizerBuilder::build_inner")
     bh = fb.hir_of(bi)
-    asg = [a for a in find_all(bh["body"], lambda z: z.get("k") == "assign" and is_local(strip(z["lhs"]), "token_origins"))]
+    # the local that ends up in Authorizer{ token_origins, .. } (field-init shorthand or explicit)
+    to_ids = {strip(f["e"])["res"]["id"] for st in find_all(bh["body"], lambda z: z.get("k") == "struct" and hirq.res_path(z["res"]).endswith("authorizer::Authorizer")) for f in st["fields"] if f["name"] == "token_origins" and is_local(strip(f["e"]))}
+    asg = [a for a in find_all(bh["body"], lambda z: z.get("k") == "assign" and hirq.is_lid(strip(z["lhs"]), to_ids))]
     ok = len(asg) == 1 and "Scope::Previous" in estr(asg[0]["rhs"]).replace("token::", "") and "block_count" in estr(asg[0]["rhs"])
     ctx.check(ok, "QUERYSCOPE", "token_origins = `previous` evaluated at block_count", "QUERYSCOPE|token_origins", f"token_origins = {estr(asg[0]['rhs']) if asg else None}", f"{bi['file']}:{bi['line']}")
 
@@ -255,7 +283,8 @@ def trust_rules(fb, ctx):
     pk = tab.get("PublicKey", ([], []))
     okK = len(pk[0]) == 1 and "iter" in pk[0][0] and p_map in " ".join(pk[1] + [estr(z) for z in find_all(sm[0] if sm else {}, lambda z: z.get("k") == "mcall" and z.get("name") == "get")]) and bool(find_all(sm[0] if sm else {}, lambda z: z.get("k") == "mcall" and z.get("name") == "get" and is_local(strip(z["recv"]), p_map)))
     ctx.check(okA and okP and okK and set(tab) == {"Authority", "Previous", "PublicKey"}, "TRUST", "`authority` -> {0}; `previous` -> 0..=current (never for the authorizer); key -> blocks signed by that key", "TRUST|scopes", f"found {tab}", where)
-    base = [estr(c["args"][0]) for c in find_all(fh["body"], lambda z: z.get("k") == "mcall" and z.get("name") == "insert" and is_local(strip(z["recv"]), "origins"))]
+    acc_ids = hirq.let_ids(fh["body"], lambda z: hirq.calls_path(strip(z), r"Origin as std::default::Default>::default$|Origin::default$|Origin::new$"))   # the accumulator, whatever it is called
+    base = [estr(c["args"][0]) for c in find_all(fh["body"], lambda z: z.get("k") == "mcall" and z.get("name") == "insert" and hirq.is_lid(strip(z["recv"]), acc_ids))]
     ctx.check(sorted(base)[:3].count(p_cur) >= 1 and any(x in ("usize::MAX", "MAX") for x in base), "TRUST", "explicit scopes always include own block and authorizer", "TRUST|explicit-base", f"unconditional inserts: {base}", where)
     # contains = superset test in the right direction
     cb = fb.body(O + "::TrustedOrigins::contains")
@@ -299,7 +328,7 @@ def loading_rules(fb, ctx):
     ctx.check(ok, "LOAD", "block i's facts are stored under origin {i}", "LOAD|facts", "facts of a loaded block are not inserted under Origin{i}", where)
     ri = mcalls(lh["body"], r"datalog::RuleSet::insert$")
     fs = [c for c in find_all(lh["body"], lambda z: z.get("k") == "call" and (z.get("f", {}).get("res", {}).get("path") or "").endswith("TrustedOrigins::from_scopes"))]
-    ok2 = len(ri) == 1 and is_local(strip(ri[0]["args"][0]), p_i) and len(fs) == 2 and all(is_local(strip(c["args"][2]), p_i) for c in fs) and any("rule" in estr(c["args"][0]) and "block_trusted_origins" in estr(c["args"][1]) for c in fs)
+    ok2 = len(ri) == 1 and is_local(strip(ri[0]["args"][0]), p_i) and len(fs) == 2 and all(is_local(strip(c["args"][2]), p_i) for c in fs) and any(find_all(c["args"][0], lambda z: z.get("k") == "field" and z.get("name") == "scopes" and re.search(r"datalog::Rule$", z.get("ety") or "")) and hirq.is_lid(strip(c["args"][1]), hirq.let_ids(lh["body"], lambda z: strip(z).get("k") == "call" and (strip(z).get("f", {}).get("res", {}).get("path") or "").endswith("TrustedOrigins::from_scopes"))) for c in fs)
     ctx.check(ok2, "LOAD", "block i's rules run as block i with trust from_scopes(rule.scopes, block trust, i)", "LOAD|rules", f"RuleSet::insert({', '.join(estr(a) for a in ri[0]['args']) if ri else ''}); from_scopes ids {[estr(c['args'][2]) for c in fs]}", where)
     bi = fb.body("biscuit_auth::token::builder::authorizer::AuthorizerBuilder::build_inner")
     bh = fb.hir_of(bi)
